@@ -10,7 +10,12 @@
 (*   - an error reported by any step is never swallowed: nil is returned   *)
 (*     only if every executed step succeeded;                              *)
 (*   - after a cancellation the call returns (on transports with           *)
-(*     deadlines) even if the peer stays silent.                           *)
+(*     deadlines) even if the peer stays silent - also when the peer has   *)
+(*     stopped reading, and also on the ABORT paths of negotiation (the    *)
+(*     peer selected a feature that was not advertised / negotiated        *)
+(*     already, sent a stream error, garbage, a bad header ...): whatever  *)
+(*     the call still writes then (an error notice to the peer) is part of *)
+(*     the call and must not outlive the cancellation either.              *)
 (***************************************************************************)
 EXTENDS Integers, Sequences, FiniteSets, TLC
 
@@ -22,20 +27,25 @@ VARIABLES steps,      \* history: outcomes of the executed steps, in order
           broken,     \* a transport fault was injected (cut / read error / write error)
           cancelled,  \* the context was cancelled
           silent,     \* after the cancellation the peer sends nothing any more
+          stuck,      \* ... and it has stopped reading as well (writes to it block until a deadline)
+          aborts,     \* the peer's script provokes a stream-level abort of the negotiation
+          inAbort,    \* the call has given up for a stream-level reason and is telling the peer so
+                      \* (optional: the property does not say whether it does)
           ctxd,       \* the context given to the call carries a (far-off) deadline of its own besides being
                       \* cancellable - nothing the property says depends on it
           ready,      \* the ready bit as reported after the call
           result      \* "none" | "ok" | "err" | "stall"
 
-vars == <<steps, inStep, broken, cancelled, silent, ctxd, ready, result>>
+vars == <<steps, inStep, broken, cancelled, silent, stuck, aborts, inAbort, ctxd, ready, result>>
 
 Init == /\ steps = <<>> /\ inStep = FALSE /\ broken = FALSE /\ cancelled = FALSE
-        /\ silent \in BOOLEAN /\ ctxd \in BOOLEAN /\ ready = FALSE /\ result = "none"
+        /\ silent \in BOOLEAN /\ stuck \in BOOLEAN /\ (stuck => silent) /\ aborts \in BOOLEAN /\ inAbort = FALSE
+        /\ ctxd \in BOOLEAN /\ ready = FALSE /\ result = "none"
 
 Running == result = "none"
 
-StepBegin == /\ Running /\ ~inStep /\ Len(steps) < MaxSteps /\ inStep' = TRUE
-             /\ UNCHANGED <<steps, broken, cancelled, silent, ctxd, ready, result>>
+StepBegin == /\ Running /\ ~inStep /\ ~inAbort /\ Len(steps) < MaxSteps /\ inStep' = TRUE
+             /\ UNCHANGED <<steps, broken, cancelled, silent, stuck, aborts, inAbort, ctxd, ready, result>>
 
 (* a step that runs into the fault cannot succeed; a cancelled one may still finish  *)
 (* if all it needed had already arrived - but then the call as a whole must fail     *)
@@ -43,37 +53,46 @@ StepEnd(ok) ==
   /\ Running /\ inStep
   /\ (ok => ~broken \/ "StepSucceedsAfterFault" \in Dev)
   /\ steps' = Append(steps, ok) /\ inStep' = FALSE
-  /\ UNCHANGED <<broken, cancelled, silent, ctxd, ready, result>>
+  /\ UNCHANGED <<broken, cancelled, silent, stuck, aborts, inAbort, ctxd, ready, result>>
 
 Fault == /\ Running /\ ~broken /\ broken' = TRUE
-         /\ UNCHANGED <<steps, inStep, cancelled, silent, ctxd, ready, result>>
+         /\ UNCHANGED <<steps, inStep, cancelled, silent, stuck, aborts, inAbort, ctxd, ready, result>>
 
 Cancel == /\ Running /\ ~cancelled /\ cancelled' = TRUE
-          /\ UNCHANGED <<steps, inStep, broken, silent, ctxd, ready, result>>
+          /\ UNCHANGED <<steps, inStep, broken, silent, stuck, aborts, inAbort, ctxd, ready, result>>
+
+(* The peer has provoked a stream-level abort and the call, between two steps, gives up *)
+(* and starts telling the peer (a transport write like any other of the call).          *)
+AbortBegin == /\ Running /\ aborts /\ ~inStep /\ ~inAbort /\ inAbort' = TRUE
+              /\ UNCHANGED <<steps, inStep, broken, cancelled, silent, stuck, aborts, ctxd, ready, result>>
 
 AllOK == \A i \in 1..Len(steps) : steps[i]
 
 ReturnOK ==
-  /\ Running /\ ~inStep
+  /\ Running /\ ~inStep /\ ~inAbort
   /\ (AllOK \/ "SwallowStepError" \in Dev)
   /\ (~broken \/ "IgnoreFault" \in Dev)
   /\ (~cancelled \/ "LoseCancellation" \in Dev)
   /\ result' = "ok" /\ ready' = TRUE
-  /\ UNCHANGED <<steps, inStep, broken, cancelled, silent, ctxd>>
+  /\ UNCHANGED <<steps, inStep, broken, cancelled, silent, stuck, aborts, inAbort, ctxd>>
 
 ReturnErr ==
   /\ Running
   /\ result' = "err" /\ ready' = ("ReadyOnError" \in Dev)
-  /\ UNCHANGED <<steps, inStep, broken, cancelled, silent, ctxd>>
+  /\ UNCHANGED <<steps, inStep, broken, cancelled, silent, stuck, aborts, inAbort, ctxd>>
 
 (* only as a deviation: the call outlives its cancellation because the peer is silent *)
 Stall ==
   /\ Running /\ cancelled /\ silent
-  /\ ("StallAfterCancel" \in Dev \/ ("DeadlineCtxLosesCancel" \in Dev /\ ctxd))   \* the second: only the context's own deadline is watched
+  /\ \/ "StallAfterCancel" \in Dev
+     \/ "DeadlineCtxLosesCancel" \in Dev /\ ctxd       \* only the context's own deadline is watched
+     \/ "AbortNoticeOutsideWatch" \in Dev /\ inAbort /\ stuck   \* the abort notice is written after the watch
+                                                              \* of the context was taken down: a peer that
+                                                              \* does not read blocks it for ever
   /\ result' = "stall"
-  /\ UNCHANGED <<steps, inStep, broken, cancelled, silent, ctxd, ready>>
+  /\ UNCHANGED <<steps, inStep, broken, cancelled, silent, stuck, aborts, inAbort, ctxd, ready>>
 
-Next == StepBegin \/ StepEnd(TRUE) \/ StepEnd(FALSE) \/ Fault \/ Cancel \/ ReturnOK \/ ReturnErr \/ Stall
+Next == AbortBegin \/ StepBegin \/ StepEnd(TRUE) \/ StepEnd(FALSE) \/ Fault \/ Cancel \/ ReturnOK \/ ReturnErr \/ Stall
 Spec == Init /\ [][Next]_vars
 FairSpec == Spec /\ WF_vars(ReturnErr) /\ WF_vars(ReturnOK) /\ WF_vars(StepEnd(FALSE))
 
